@@ -6,7 +6,28 @@ import (
 	"verifh/hx"
 )
 
-func send(c, ty, n1, n2, tag, pad int64) hx.T { return hx.C("OSend", c, ty, n1, n2, tag, pad) }
+func send(c, ty, n1, n2, tag, pad int64) hx.T {
+	return hx.C("OSend", c, ty, n1, n2, tag, pad, 0, []any{})
+}
+
+// multi-target: mode 1 PushMessageByIds, mode 2 channel broadcast
+func sendTo(c, ty, n1, n2, tag, pad, mode int64, targets ...int64) hx.T {
+	l := []any{}
+	for _, t := range targets {
+		l = append(l, t)
+	}
+	return hx.C("OSend", c, ty, n1, n2, tag, pad, mode, l)
+}
+
+// a client that does not read for stallMs while ty's handler issues n pushes of ~pad bytes and
+// then the response: kernel buffers, then the 9999-slot send queue of the connection fill up
+func stalled(ty, n, pad, stallMs int64) []hx.T {
+	ops := []hx.T{hx.C("OConn", 1, 0)}
+	if ty == 1 {
+		ops = append(ops, hx.C("OKey", 1, 1))
+	}
+	return append(ops, hx.C("OStall", 1, stallMs), send(1, ty, n, 3, 1, pad), send(1, 0, 2, 2, 2, 0))
+}
 
 // burst: room-1, the front, chat-1 and chat-2 all pushing to the same connection at once
 func burst(n int64, slow int64, pad int64) []hx.T {
@@ -26,12 +47,25 @@ func fixedCases(tier string) [][]hx.T {
 		{hx.C("OConn", 1, 0), hx.C("OConn", 2, 0), send(1, 2, 50, 5, 1, 0), send(2, 2, 50, 5, 2, 0), send(1, 0, 50, 5, 3, 0), send(2, 0, 50, 5, 4, 0)},
 		// no target: the front answers an error
 		{hx.C("OConn", 1, 0), send(1, 1, 2, 2, 1, 0), send(1, 0, 1, 1, 2, 0)},
+		// broadcasts: front-local and back-end, via PushMessageByIds and via a channel, to the
+		// requester, to the requester and others, to others only, with duplicates and unknown ids
+		{hx.C("OConn", 1, 0), sendTo(1, 0, 3, 2, 1, 0, 1, 1)},
+		{hx.C("OConn", 1, 0), sendTo(1, 0, 3, 2, 1, 0, 2, 1)},
+		{hx.C("OConn", 1, 0), hx.C("OConn", 2, 0), hx.C("OConn", 3, 0), sendTo(1, 0, 4, 2, 1, 0, 1, 1, 2, 3), sendTo(2, 0, 4, 2, 2, 0, 2, 3, 2, 1),
+			sendTo(3, 2, 4, 2, 3, 0, 1, 1, 2, 3), sendTo(1, 2, 4, 2, 4, 0, 2, 1, 2, 3), send(2, 0, 2, 1, 5, 0), send(2, 2, 2, 1, 6, 0)},
+		{hx.C("OConn", 1, 0), hx.C("OConn", 2, 0), sendTo(1, 0, 3, 1, 1, 0, 1, 2), sendTo(1, 2, 3, 1, 2, 0, 2, 2, 2, 9), sendTo(2, 0, 2, 2, 3, 0, 2, 1, 1, 2)},
+		{hx.C("OConn", 1, 0), hx.C("OConn", 2, 0), hx.C("OKey", 1, 1), hx.C("OKey", 2, 2), sendTo(1, 1, 200, 5, 1, 0, 2, 1, 2), sendTo(2, 1, 200, 5, 2, 0, 1, 2, 1),
+			sendTo(1, 0, 200, 5, 3, 0, 2, 1, 2), sendTo(2, 0, 200, 5, 4, 50, 1, 1, 2)},
+		// a stalled client: the connection's send queue (9999 slots) fills, the producer blocks
+		stalled(2, 35000, 1000, 1200),
+		stalled(0, 35000, 1000, 1200),
 		// bursts large enough to trigger the mailbox smoothing pause and to fill the task queues
 		burst(3000, 0, 0),
 		burst(3000, 0, 300),
 	}
 	if tier == "thorough" {
-		out = append(out, burst(3000, 20, 0), burst(12000, 0, 0), burst(6000, 5, 64), burst(3000, 0, 4000))
+		out = append(out, burst(3000, 20, 0), burst(12000, 0, 0), burst(6000, 5, 64), burst(3000, 0, 4000),
+			stalled(1, 40000, 1000, 2500), stalled(2, 30000, 2000, 1500), stalled(0, 40000, 800, 2000))
 	}
 	return out
 }
@@ -85,7 +119,26 @@ func gen(cfg *hx.Config, i int) ([]hx.T, []string) {
 			case 2:
 				tags["default-backend"] = true
 			}
-			ops = append(ops, send(c, ty, n1, n2, tag, pad))
+			mode := int64(0)
+			var targets []int64
+			if r.Intn(3) == 0 {
+				mode = int64(1 + r.Intn(2))
+				for j := r.Intn(4); j > 0; j-- {
+					targets = append(targets, 1+r.Int63n(nconn+1))
+				}
+				if r.Intn(2) == 0 {
+					targets = append(targets, c)
+				}
+				if mode == 1 {
+					tags["push-by-ids"] = true
+				} else {
+					tags["channel-broadcast"] = true
+				}
+				if n1 > 400 {
+					n1 = 400
+				}
+			}
+			ops = append(ops, sendTo(c, ty, n1, n2, tag, pad, mode, targets...))
 			tag++
 		}
 	}
